@@ -59,6 +59,13 @@ ASSUMPTIONS = [
     'pins only that it equals no other number and that the six operators stay consistent (oracle number-comparison-laws)',
     'evaluations without a globals dict (options None / {} / globals None) carry no maxStatements: no script function is reachable from '
     'them (only values, library functions and host functions in the locals), so they cannot loop',
+    'stream repeated-effects: the expression model handed to the evaluator may contain one sub-tree object at several places (a host-built model; '
+    'the parser never produces one) - the evaluator only reads the model, so sharing must not be observable; cases whose repeated text names a '
+    'host function are implementation-side only (reference evaluator, invocation record, site-labelled twin), those that only log go to the Lean '
+    'machine too. stream alias-all-types is implementation-side only (functions, regexes, host values and the options forms are outside the driver); '
+    'its numbers stay below 1e15 or at 1e300 / non-finite because numberToFixed / mathRound compute 10 ** digits for a huge finite digit count '
+    '(minutes; argument validation of the library is properties C05 / C15); the text of the debug report of a failed call is compared after '
+    'the implementation\'s fixed prefix `BareScript: Function "<name>" failed with error: `',
 ]
 TRUSTED = ['reference evaluator, value pool and generators in harness/props/C03.py (the property oracle)',
            'library functions are used as uninterpreted functions by the reference evaluator (systemType, arrayNew, ... and the alias targets)']
@@ -348,7 +355,7 @@ HOST_EXC = {
 HOST_SIGS = ['two', 'opt', 'opt3', 'star', 'starkw', 'rest', 'lambda-opt', 'method', 'method-opt', 'partial', 'partial-kw', 'object',
              'static', 'class']
 HOST_BODIES = ['first', 'add1', 'len', 'index', 'neg', 'join', 'sum', 'count', 'queue', 'raise', 'raise-first', 'raise-on-type', 'args-error',
-               'runtime-error', 'ret', 'global']
+               'runtime-error', 'ret', 'global', 'bump']
 
 
 def make_host_fn(spec, record):
@@ -402,6 +409,10 @@ def make_host_fn(spec, record):
             return build(data)
         if body == 'global':
             return options['globals'].get(data)           # a host function that reads a global through its options argument
+        if body == 'bump':
+            glob = options['globals']                     # a host function that CHANGES a global (adds 1) and returns the new value
+            glob[data] = (glob.get(data) or 0) + 1
+            return glob[data]
         raise ValueError(body)
 
     sig = spec['sig']
@@ -871,7 +882,30 @@ def impl_outcome(fn, out):
     return res
 
 
-def run_impl(mode, expr, env, locals_=None, builtins=False, optform='full'):
+def impl_expr_shared(e, memo):
+    """protocol expression -> implementation expression model in which structurally equal sub-expressions are ONE object (an
+    expression model built by a host that re-uses sub-trees: legal, the evaluator only reads the model)"""
+    key = json.dumps(e, sort_keys=True)
+    node = memo.get(key)
+    if node is None:
+        (k, v), = e.items()
+        if k == 'number':
+            node = {'number': float(Fraction(v[0], v[1]))}
+        elif k in ('string', 'variable'):
+            node = {k: v}
+        elif k == 'group':
+            node = {'group': impl_expr_shared(v, memo)}
+        elif k == 'unary':
+            node = {'unary': {'op': v['op'], 'expr': impl_expr_shared(v['expr'], memo)}}
+        elif k == 'binary':
+            node = {'binary': {'op': v['op'], 'left': impl_expr_shared(v['left'], memo), 'right': impl_expr_shared(v['right'], memo)}}
+        else:
+            node = {'function': {'name': v['name'], 'args': [impl_expr_shared(a, memo) for a in v['args']]}}
+        memo[key] = node
+    return node
+
+
+def run_impl(mode, expr, env, locals_=None, builtins=False, optform='full', share=False):
     """-> (outcome dict {'result'|'error'|'hostexc', 'log'}, raw result object, globals dict used)"""
     runtime = fw.impl()['runtime']
     log = []
@@ -880,7 +914,7 @@ def run_impl(mode, expr, env, locals_=None, builtins=False, optform='full'):
     out = {}
 
     def go():
-        iexpr = progen.impl_expr(expr)
+        iexpr = impl_expr_shared(expr, {}) if share else progen.impl_expr(expr)
         if mode == 'exec':
             return runtime.execute_script({'statements': TR_STATEMENTS + [{'return': {'expr': iexpr}}]}, options)
         if optform not in NO_GLOBALS_FORMS:
@@ -1005,8 +1039,9 @@ def text_of(expr):
 class Case:
     """One expression evaluation: mode, expression, environment specs (globals / locals), builtins flag, form of the options argument."""
 
-    def __init__(self, mode, expr, gspecs, lspecs=None, builtins=False, tags=(), identity=None, optform='full'):
+    def __init__(self, mode, expr, gspecs, lspecs=None, builtins=False, tags=(), identity=None, optform='full', share=False):
         self.mode, self.expr, self.gspecs, self.lspecs, self.builtins = mode, expr, gspecs, lspecs, builtins
+        self.share = share                  # structurally equal sub-expressions are the SAME object in the implementation's model
         self.tags = list(tags)
         self.identity = identity            # (op, left variable, right variable) for the `is` oracle
         self.optform = optform
@@ -1029,12 +1064,15 @@ class Case:
             d['identity'] = list(self.identity)
         if self.optform != 'full':
             d['options'] = self.optform
+        if self.share:
+            d['share'] = True
         return d
 
 
 def case_of_input(inp):
     return Case(inp['mode'], inp['expr'], inp['globals'], inp.get('locals'), inp.get('builtins', False),
-                identity=tuple(inp['identity']) if inp.get('identity') else None, optform=inp.get('options', 'full'))
+                identity=tuple(inp['identity']) if inp.get('identity') else None, optform=inp.get('options', 'full'),
+                share=bool(inp.get('share')))
 
 
 HOST_ONCE = 'host-function-invoked-once-in-order'
@@ -1049,7 +1087,7 @@ def check_case(case, env=None, locals_=None):
         env = build_env(case.gspecs, rec_i)
     if locals_ is None and case.lspecs is not None:
         locals_ = build_env(case.lspecs, rec_i)
-    impl, res, g = run_impl(case.mode, case.expr, env, locals_, case.builtins, case.optform)
+    impl, res, g = run_impl(case.mode, case.expr, env, locals_, case.builtins, case.optform, case.share)
     if hosted:
         env_r = build_env(case.gspecs, rec_r)
         loc_r = build_env(case.lspecs, rec_r) if case.lspecs is not None else None
@@ -3313,6 +3351,470 @@ def stream_number_edges(ctx):
 
 
 # ---------------------------------------------------------------------------------------------------------------------
+# stream repeated-effects: structurally IDENTICAL effectful sub-expressions at several sites of one expression
+# ---------------------------------------------------------------------------------------------------------------------
+
+SITES_ORACLE = 'identical-sites-evaluate-like-labelled-sites'
+SITES_TEXT = ('sub-expressions and call arguments are evaluated exactly once, left to right, and if() evaluates its test and only the selected '
+              'branch: every SITE of an expression is a sub-expression of its own, whatever its text - two sites with the same text are two '
+              'evaluations. Wrapping every call site i in the logging call tr(\'@i\', <site>) (which makes all sites textually distinct and '
+              'changes no value) must change neither the result nor the calls made nor the log apart from the added @i lines; the @i lines are '
+              'the sequence of sites the language evaluates')
+SITE_MARK = '@'
+REP_SCALE = [0, 1, 2, 9, 10, 11, 16, 17, 64, 65, 100, 101, 128, 129, 256, 1000]
+REP_HOST = {
+    'tick': {'hostfn': {'name': 'tick', 'sig': 'opt', 'body': 'count'}},                      # 1, 2, 3, ...: a different value at every evaluation
+    'pop': {'hostfn': {'name': 'pop', 'sig': 'two', 'body': 'queue',                          # 0, 5, 0, 7, null (failed), 3, then failing calls
+                       'queue': [{'int': 0}, {'int': 5}, {'int': 0}, {'int': 7}, None, {'int': 3}]}},
+    'bump': {'hostfn': {'name': 'bump', 'sig': 'method-opt', 'body': 'bump', 'data': 'cnt'}},  # cnt = cnt + 1 through the options' globals
+    'once': {'hostfn': {'name': 'once', 'sig': 'partial', 'body': 'raise-first', 'exc': 'KeyError'}},   # fails at its first evaluation only
+    'rec': {'hostfn': {'name': 'rec', 'sig': 'star', 'body': 'first'}},
+}
+
+
+def rep_specs(mode):
+    gspecs = {k: s for k, s in pool_specs().items() if k in ('n7', 'n0', 'n1', 'vn', 'se', 'sa', 'a1', 'ae', 'bt', 'bf')}
+    gspecs['cnt'] = {'int': 0}
+    gspecs.update(REP_HOST)
+    if mode == 'eval':
+        for fn in LIB_IN_TREES + ['systemLog']:
+            gspecs[fn] = {'lib': fn}
+    return gspecs
+
+
+def rep_atoms():
+    """(name, the effectful sub-expression E, a READ R whose value depends on the effects made so far, number of tr calls in E)"""
+    tick = progen.call('tick')
+    return [
+        ('log-truthy', traced('x', var('n7')), progen.num(1), 1),
+        ('log-zero', traced('x', var('n0')), progen.num(1), 1),
+        ('log-null', traced('x', var('vn')), progen.string('r'), 1),
+        ('log-empty', traced('x', var('se')), var('sa'), 1),
+        ('log-nested', traced('x', traced('x', var('bt'))), progen.num(2), 2),
+        ('count', tick, progen.num(1), 0),
+        ('count-1', progen.binop('-', tick, progen.num(1)), progen.num(1), 0),                         # 0 (falsy) first, then 1, 2, ...
+        ('count-odd', progen.binop('%', tick, progen.num(2)), progen.num(1), 0),                       # 1, 0, 1, 0, ...
+        ('queue', progen.call('pop', progen.num(1)), progen.num(1), 0),
+        ('global', progen.call('bump'), var('cnt'), 0),
+        ('global-read', progen.binop('+', progen.call('bump'), var('cnt')), var('cnt'), 0),
+        ('fails-first', progen.call('once', progen.num(4)), progen.num(1), 0),
+        ('call-in-call', progen.call('rec', tick, tick), progen.num(1), 0),
+        ('logged-count', traced('x', tick), progen.num(1), 1),
+    ]
+
+
+def rep_templates(E, R):
+    """(shape, expression) with E at several sites: test / branches of if, both operands of every operator, several arguments of one call"""
+    X = progen.string('alt')
+    iff = lambda *a: progen.call('if', *a)
+    b = progen.wf_binary
+    one, five = progen.num(1), progen.num(5)
+    out = [
+        ('if:test=then', iff(E, E, X)), ('if:test=else', iff(E, X, E)), ('if:all', iff(E, E, E)), ('if:two', iff(E, E)), ('if:four', iff(E, E, E, E)),
+        ('if:branches', iff(R, E, E)), ('if:branches-f', iff(var('vn'), E, E)),
+        ('if:not-test=else', iff(progen.unop('!', E), X, E)), ('if:not-test=then', iff(progen.unop('!', E), E, X)),
+        ('if:op-test=else', iff(b('-', E, one), five, b('-', E, one))), ('if:op-test=then', iff(b('>', E, one), b('>', E, one), X)),
+        ('if:group-then', iff(E, progen.group(E), X)), ('if:group-test', iff(progen.group(E), E, X)),
+        ('if:nested-else', iff(b('>', E, five), X, iff(b('>', E, five), X, E))),
+        ('if:nested-all', iff(iff(E, E, X), iff(E, E, X), iff(E, E, X))),
+        ('if:in-then', iff(E, iff(E, E, X), X)), ('if:in-else', iff(E, X, iff(E, X, E))),
+        ('if:or', b('||', iff(E, E, X), iff(E, E, X))), ('if:sum', b('+', iff(E, E, X), iff(E, X, E))),
+        ('if:in-args', progen.call('arrayNew', iff(E, E, X), iff(E, E, X))),
+        ('if:test-is-call-of', iff(progen.call('rec', E), progen.call('rec', E), X)),
+        ('read-around', b('+', b('+', R, E), R)), ('read-if', iff(R, R, E)), ('read-args', progen.call('arrayNew', R, E, R, E, R)),
+        ('unary-', b('+', progen.unop('-', E), progen.unop('-', E))), ('unary!', b('==', progen.unop('!', E), progen.unop('!', E))),
+        ('args2', progen.call('arrayNew', E, E)), ('args3', progen.call('arrayNew', E, E, E)), ('args-host', progen.call('rec', E, E)),
+        ('args-nested', progen.call('arrayNew', progen.call('arrayNew', E, E), progen.call('arrayNew', E, E))),
+        ('args-undefined', progen.call('nope', E, E)), ('args-logged', traced('y', progen.call('arrayNew', E, E))),
+        ('deep', b('*', progen.group(b('+', E, E)), progen.group(b('+', E, E)))),
+        ('and-or', b('||', b('&&', E, E), b('&&', E, E))), ('or-and', b('&&', progen.group(b('||', E, E)), progen.group(b('||', E, E)))),
+    ]
+    for op in OPS:
+        out.append(('binary' + op, b(op, E, E)))
+        out.append(('binary3' + op, b(op, b(op, E, E), E)))
+    return out
+
+
+def rep_scaled(E, n):
+    """n identical sites: (flat) n arguments of one call, (chain) a left-nested sum of n terms, (ifs) n nested if(E, E, <next>)"""
+    out = [('scale:args', progen.call('arrayNew', *[E] * n))]
+    if 1 <= n <= 256:
+        chain = E
+        for _ in range(n - 1):
+            chain = progen.binop('+', chain, E)
+        out.append(('scale:chain', chain))
+    if 1 <= n <= 129:
+        ors = E
+        for _ in range(n - 1):
+            ors = progen.binop('||', progen.binop('&&', ors, var('vn')), E)          # every term is evaluated: (.. && null) is falsy
+        out.append(('scale:or-chain', ors))
+    if 1 <= n <= 101:
+        ifs = progen.string('end')
+        for i in range(n):                                # the rest of the chain in ONE branch (alternating), E in the other
+            ifs = progen.call('if', E, ifs, E) if (i + n) % 2 else progen.call('if', E, E, ifs)
+        out.append(('scale:ifs', ifs))
+        thens = E
+        for i in range(n - 1):                            # test = then-branch at every level, the rest of the chain in the else-branch
+            thens = progen.call('if', progen.unop('!', E), progen.unop('!', E), thens)
+        out.append(('scale:if-not', thens))
+    return out
+
+
+def label_sites(e, counter):
+    """every call site (not the if() form itself, not the labels) wrapped in tr('@i', <site>), numbered in source order"""
+    (k, v), = e.items()
+    if k in ('number', 'string', 'variable'):
+        return e
+    if k == 'group':
+        return {'group': label_sites(v, counter)}
+    if k == 'unary':
+        return {'unary': {'op': v['op'], 'expr': label_sites(v['expr'], counter)}}
+    if k == 'binary':
+        return {'binary': {'op': v['op'], 'left': label_sites(v['left'], counter), 'right': label_sites(v['right'], counter)}}
+    if v['name'] == 'if':
+        return {'function': {'name': 'if', 'args': [label_sites(a, counter) for a in v['args']]}}
+    counter[0] += 1
+    label = f'{SITE_MARK}{counter[0]}'
+    return traced(label, {'function': {'name': v['name'], 'args': [label_sites(a, counter) for a in v['args']]}})
+
+
+def count_calls(e):
+    (k, v), = e.items()
+    if k in ('number', 'string', 'variable'):
+        return 0
+    if k == 'group':
+        return count_calls(v)
+    if k == 'unary':
+        return count_calls(v['expr'])
+    if k == 'binary':
+        return count_calls(v['left']) + count_calls(v['right'])
+    return (v['name'] != 'if') + sum(count_calls(a) for a in v['args'])
+
+
+def sites_failure(case, own=None):
+    """-> None or (expected, actual): the case's own evaluation vs the evaluation of its site-labelled twin (implementation only)"""
+    def run(expr, share):
+        record = []
+        env = build_env(case.gspecs, record)
+        loc = build_env(case.lspecs, record) if case.lspecs is not None else None
+        out, _, g = run_impl(case.mode, expr, env, loc, case.builtins, case.optform, share)
+        return out, record, canon(g.get('cnt'), fw.impl()['library'].SCRIPT_FUNCTIONS)
+    impl, rec, cnt = own if own is not None else run(case.expr, case.share)
+    twin, trec, tcnt = run(label_sites(case.expr, [0]), False)
+    is_mark = lambda ln: isinstance(ln, str) and ln.startswith(SITE_MARK)             # pylint: disable=unnecessary-lambda-assignment
+    sites = [ln for ln in twin['log'] if is_mark(ln)]
+    want = {k: twin[k] for k in twin if k != 'log'}
+    want.update(log=[ln for ln in twin['log'] if not is_mark(ln)], calls=trec, sites=sites)
+    got = {k: impl[k] for k in impl if k != 'log'}
+    got.update(log=impl['log'], calls=rec, sites=sites)
+    want['cnt'], got['cnt'] = tcnt, cnt
+    return None if want == got else (want, got)
+
+
+class RepTreeGen(HostTreeGen):
+    """random trees whose atoms are, half of the time, one of a few fixed effectful sub-expressions (so the same text recurs at many sites)"""
+
+    def __init__(self, rng, names, maxdepth, hostnames, clones):
+        super().__init__(rng, names, maxdepth, hostnames, rate=0.12)
+        self.clones = clones
+
+    def atom(self):
+        if self.rng.random() < 0.6:
+            return self.rng.choice(self.clones)
+        return super().atom()
+
+    def tree(self, depth=1):
+        rng = self.rng
+        if depth < self.maxdepth and rng.random() < 0.12:
+            # an if() whose test recurs as a branch / whose branches are the same
+            c = self.tree(depth + 1)
+            other = self.tree(depth + 1)
+            self.kinds.add('if-repeat')
+            return progen.call('if', *rng.choice([[c, c, other], [c, other, c], [other, c, c], [c, c], [c, c, c]]))
+        if depth < self.maxdepth and rng.random() < 0.08:
+            c = self.tree(depth + 1)
+            self.kinds.add('op-repeat')
+            return progen.wf_binary(rng.choice(OPS), c, c)
+        return super().tree(depth)
+
+
+def rep_case(mode, expr, tags, k, builtins=False):
+    share = k % 3 == 2
+    return Case(mode, expr, rep_specs(mode), None, builtins, tags=list(tags) + ['mode:' + mode, 'model:' + ('shared-objects' if share else 'copies')],
+                share=share)
+
+
+def stream_repeated_effects(ctx):
+    st = ctx.stream('repeated-effects', 'STRUCTURALLY IDENTICAL effectful sub-expressions at several sites of one expression. The repeated text E is a logging '
+                                        'call with ONE tag (truthy / 0 / null / empty value, nested in itself), a host function that counts its invocations '
+                                        '(1, 2, 3, ...: alone, minus 1 - falsy first -, modulo 2), consumes a queue (0, 5, 0, 7, a failing item, ...), '
+                                        'changes a global through its options (with a READ of that global beside it), fails at its first evaluation only, or '
+                                        'a call with E twice among its arguments. (1) 14 texts x 63 shapes: test = then-branch, test = else-branch, '
+                                        'all of if (2 / 3 / 4 arguments), both branches, under ! / an operator / a group / a call in test and branch, '
+                                        'nested ifs, both operands of each of the 14 operators (and E op E op E), under both unary operators, 2 / 3 '
+                                        'arguments of a library / host / undefined function, nested argument lists, a read of the changed global around '
+                                        'the effect; (2) SCALE: n identical sites for n in 0, 1, 2, 9, 10, 11, 16, 17, 64, 65, 100, 101, 128, 129, 256, 1000 as '
+                                        'arguments of one call (all n), a left-nested sum (n <= 256), an or-chain (n <= 129), nested ifs with the chain in alternating branches / with test = then-branch at every level (n <= 101); (3) random '
+                                        'trees to depth 5 whose atoms are 1-3 fixed effectful sub-expressions (themselves random, depth <= 3), with ifs whose '
+                                        'test recurs as a branch and operators with twice the same operand. Through execute_script and evaluate_expression, '
+                                        'and with an expression model in which equal sub-trees are ONE object (a host-built model; the parser never shares). '
+                                        'Oracles: the reference evaluator (value, log, invocation record: every site evaluated as often as the language '
+                                        'says, in order), the Lean machine where no host function is named, and (implementation only) the SITE-LABELLED TWIN: '
+                                        'every call site i wrapped in tr(\'@i\', site) - all sites textually distinct - must give the same result, calls and '
+                                        'log apart from the @i lines; non-trivial = every case')
+    rng = ctx.rng('repeated-effects')
+    batch = Batch(ctx, 'repeated-effects', st)
+    reports = [0]
+
+    def add(case, key=None, twin=True):
+        rec_i, rec_r = [], []
+        env_i, env_r = build_env(case.gspecs, rec_i), build_env(case.gspecs, rec_r)
+        impl, res, g = run_impl(case.mode, case.expr, env_i, None, case.builtins, case.optform, case.share)
+        rout, _, ref = run_ref(case.mode, case.expr, env_r, None, case.builtins, case.optform)
+        fails = []
+        if 'hostexc' in impl:
+            fails.append(('no-host-exception', rout, impl))
+        else:
+            if ('error' in impl) != ('error' in rout) or impl.get('error') != rout.get('error') or impl.get('result') != rout.get('result'):
+                fails.append(('typed-operator-value', {k: rout[k] for k in rout if k != 'log'}, {k: impl[k] for k in impl if k != 'log'}))
+            if impl['log'] != rout['log']:
+                fails.append(('evaluation-order-and-laziness', rout['log'], impl['log']))
+        if rec_i != rec_r:
+            fails.append((HOST_ONCE, rec_r, rec_i))
+        cnt = canon(g.get('cnt'), fw.impl()['library'].SCRIPT_FUNCTIONS)
+        del res
+        if reports[0] >= ORDER_REPORT_CAP:
+            fails = []
+        elif fails:
+            reports[0] += 1
+        batch.add(case, checked=(impl, ref, fails, env_i, None), key=key)
+        if twin and reports[0] < ORDER_REPORT_CAP:
+            bad = sites_failure(case, (impl, rec_i, cnt))
+            if bad is not None:
+                reports[0] += 1
+                ctx.witness(SITES_ORACLE, case.input(), bad[0], bad[1], note=SITES_TEXT)
+
+    # (1) texts x shapes
+    k = 0
+    for aname, E, R, _ in rep_atoms():
+        for shape, expr in rep_templates(E, R):
+            k += 1
+            mode = 'exec' if k % 2 else 'eval'
+            add(rep_case(mode, expr, ['family:shapes', 'text:' + aname, 'shape:' + shape], k, builtins=(k % 4 == 0)), key=[aname, shape])
+    batch.flush()
+    # (2) scale
+    for aname, E, _, ntr in rep_atoms():
+        if aname not in ('log-truthy', 'count', 'count-odd', 'queue', 'global-read', 'logged-count'):
+            continue
+        for n in REP_SCALE:
+            if ctx.quick and n == 1000 and aname not in ('count', 'log-truthy'):
+                continue
+            for shape, expr in rep_scaled(E, n):
+                k += 1
+                sites = n * (2 if shape in ('scale:ifs', 'scale:if-not') else 1)
+                # every tr call is two statements of the script function: stay well inside maxStatements (exceeding it is property C01/C04)
+                if 2 * ntr * sites + 8 > MAXS:
+                    continue
+                twin = 2 * (ntr * sites + count_calls(expr)) + 8 <= MAXS
+                mode = 'exec' if k % 2 else 'eval'
+                add(rep_case(mode, expr, ['family:scale', 'text:' + aname, 'shape:' + shape, f'sites:{n}'] + ([] if twin else ['no-twin']), k),
+                    key=[aname, shape, n], twin=twin)
+    batch.flush()
+    # (3) random trees over a few fixed effectful sub-expressions
+    names = ['n7', 'n0', 'n1', 'vn', 'se', 'sa', 'a1', 'ae', 'bt', 'bf', 'cnt']
+    hostnames = ['tick', 'pop', 'bump', 'once', 'rec']
+    for i in range(ctx.scale(1500, 20000)):
+        clones = []
+        for _ in range(rng.randint(1, 3)):
+            for _ in range(6):
+                cg = HostTreeGen(rng, names + ['tr'], rng.choice([2, 2, 3]), hostnames, rate=0.55)
+                c = cg.tree()
+                if 'call-host' in cg.kinds or 'function' in c and c['function']['name'] == 'tr':
+                    break
+            else:
+                c = progen.call('tick')
+            clones.append(c)
+        gen = RepTreeGen(rng, names + ['tr'], rng.choice([2, 3, 3, 4, 4, 5]), hostnames, clones)
+        expr = gen.tree()
+        mode = 'exec' if i % 2 else 'eval'
+        tags = ['family:trees', f'depth{min(expr_depth(expr), 9)}'] + sorted(x for x in gen.kinds if x.endswith('repeat'))
+        add(rep_case(mode, expr, tags, i, builtins=(i % 4 == 0)), twin=2 * (3 * count_calls(expr)) + 8 <= MAXS)
+        if i % 500 == 499:
+            batch.flush()
+    batch.flush()
+
+
+# ---------------------------------------------------------------------------------------------------------------------
+# stream alias-all-types: every expression built-in on argument lists of EVERY value type vs its documented library function
+# ---------------------------------------------------------------------------------------------------------------------
+
+ALIAS_TYPES_ORACLE = 'alias-equals-library-function-on-every-type'
+ALIAS_TYPES_TEXT = ('in expression mode each built-in behaves exactly as the library function it is documented to alias - for arguments of EVERY value '
+                    'type and any number of them: same result (a failed call gives the failure value of the library function, else null), same '
+                    'failure text (the debug-mode report of the failed call carries the library function\'s error), same state of the arguments '
+                    'afterwards and same invocations of functions passed as arguments')
+FAILED_WITH = 'failed with error: '
+AT_CB = {'hostfn': {'name': 'cb', 'sig': 'opt', 'body': 'first'}}                   # a recording host function, as an ARGUMENT value
+# (name, type, spec, rank): rank 0 = in every tier's pair / triple matrices, 1 = pair matrix, 2 = single arguments (and thorough pairs) only.
+# No finite number beyond 1e15: numberToFixed / mathRound compute 10 ** digits (minutes for a huge digit count; known finding on their digits).
+AT_VALUES = [
+    ('null', 'null', None, 0), ('true', 'boolean', True, 0), ('false', 'boolean', False, 1),
+    ('0', 'number', fnum(0.0), 1), ('-0', 'number', fnum(-0.0), 2), ('i1', 'number', {'int': 1}, 0), ('i3', 'number', {'int': 3}, 1),
+    ('2.5', 'number', fnum(2.5), 1), ('-2', 'number', fnum(-2.0), 0), ('i65', 'number', {'int': 65}, 2), ('i16', 'number', {'int': 16}, 2),
+    ('0.5', 'number', fnum(0.5), 2), ('1e300', 'number', fnum(1e300), 1), ('nan', 'number', fnum(NAN), 2), ('inf', 'number', fnum(INF), 2),
+    ('int-enum', 'number', sub('int-enum', {'int': 3}), 2),
+    ('empty', 'string', '', 1), ('abcabc', 'string', 'abcabc', 0), ('b', 'string', 'b', 0), ('12', 'string', '12', 1),
+    ('padded', 'string', ' Ab c ', 2), ('3.5e2x', 'string', '3.5e2x', 2), ('astral', 'string', '\U0001f600\xe9b', 2), ('dot', 'string', '.', 2),
+    ('str-sub', 'string', sub('str-sub', 'abc'), 2),
+    ('dt', 'datetime', {'dt': [2024, 2, 29, 13, 14, 15, 16000]}, 0), ('date', 'datetime', {'date': [2020, 1, 2]}, 1),
+    ('dt-aware', 'datetime', {'dta': [2024, 2, 29, 13, 14, 15, 16000, 330]}, 2),
+    ('arr-empty', 'array', [], 1), ('arr', 'array', [{'int': 1}, {'int': 2}, 'b', {'int': 2}], 0), ('arr-str', 'array', ['b', 'abcabc', 'b'], 1),
+    ('arr-nested', 'array', [[{'int': 1}], 'b'], 2), ('list-sub', 'array', sub('list-sub', ['b', fnum(1.0)]), 2),
+    ('obj-empty', 'object', {'obj': []}, 1), ('obj', 'object', {'obj': [['a', {'int': 1}], ['b', 'b']]}, 0), ('obj-length', 'object', {'obj': [['length', {'int': 3}]]}, 2),
+    ('fn-lib', 'function', {'lib': 'systemType'}, 1), ('fn-host', 'function', AT_CB, 0), ('fn-len', 'function', {'lib': 'arrayLength'}, 2),
+    ('regex', 'regex', {'re': 'b'}, 0), ('regex-groups', 'regex', {'re': '(a)(b)?'}, 2),
+]
+AT_SPEC = {name: spec for name, _, spec, _ in AT_VALUES}
+AT_TYPE = {name: ty for name, ty, _, _ in AT_VALUES}
+# third arguments: one value of every type (arrays unsorted and with a repeated element: sorting / reversing in place would show)
+AT_THIRD = ['i1', 'null', 'b', '-2', 'arr', 'true', 'fn-host', 'regex', 'obj', 'dt', '2.5', 'empty']
+AT_FORMS = ['debug', 'debug', 'full', 'debug', 'none', 'debug', 'no-logfn', 'debug-no-logfn', 'empty']
+AT_BINDS = ['globals', 'locals', 'mixed']
+
+
+def scanon(v, lib):
+    """canon, telling -0 from 0 (the value a library function returns is observable through 1 / x and its text)"""
+    if isinstance(v, float) and v == 0 and math.copysign(1.0, v) < 0:
+        return {'n': [0, 1], 'negative-zero': True}
+    if isinstance(v, list):
+        return [scanon(x, lib) for x in v]
+    if isinstance(v, dict):
+        return {'o': [[k, scanon(v[k], lib)] for k in sorted(v, key=str)]}
+    return canon(v, lib)
+
+
+def alias_types_run(inp):
+    """inp: {'alias', 'args': [value names], 'options': form, 'bind'} -> (expected, actual).  expected: the documented library function called
+    directly on freshly built argument values under the call wrapper's contract; actual: the alias through evaluate_expression(builtins=True)"""
+    mods = fw.impl()
+    runtime, value = mods['runtime'], mods['value']
+    lib = mods['library'].SCRIPT_FUNCTIONS
+    alias, names, form, bind = inp['alias'], inp['args'], inp.get('options', 'debug'), inp.get('bind', 'globals')
+    nog = form in NO_GLOBALS_FORMS
+    sides = []
+    for side in ('direct', 'expression'):
+        record, log = [], []
+        vals = [build(AT_SPEC[n], record) for n in names]
+        g, loc = {}, None
+        if nog or bind == 'locals':
+            loc = {f'v{i}': v for i, v in enumerate(vals)}
+        elif bind == 'mixed':
+            g = {f'v{i}': v for i, v in enumerate(vals) if i != 1}
+            loc = {f'v{i}': v for i, v in enumerate(vals) if i == 1}
+        else:
+            g = {f'v{i}': v for i, v in enumerate(vals)}
+        options = make_options(form, g, log)
+        out = {}
+        if side == 'direct':
+            try:
+                out['result'] = scanon(lib[DOC_ALIASES[alias]](list(vals), options), lib)
+            except (runtime.BareScriptRuntimeError, mods['parser'].BareScriptParserError) as exc:
+                out['error'] = str(exc)
+            except Exception as exc:  # pylint: disable=broad-except
+                out['result'] = scanon(exc.return_value if isinstance(exc, value.ValueArgsError) else None, lib)
+                if form == 'debug':
+                    try:
+                        out['failure'] = [str(exc)]
+                    except Exception:  # pylint: disable=broad-except
+                        out['failure'] = [type(exc).__name__]
+            out.setdefault('failure', [])
+            out['log'] = list(log)
+        else:
+            expr = {'function': {'name': alias, 'args': [{'variable': f'v{i}'} for i in range(len(names))]}}
+            res = None
+            try:
+                if form == 'none':
+                    res = runtime.evaluate_expression(expr, None, loc)
+                else:
+                    res = runtime.evaluate_expression(expr, options, loc, True)
+                out['result'] = scanon(res, lib)
+            except (runtime.BareScriptRuntimeError, mods['parser'].BareScriptParserError) as exc:
+                out['error'] = str(exc)
+            except Exception as exc:  # pylint: disable=broad-except
+                out['hostexc'] = type(exc).__name__
+            reports = [ln for ln in log if isinstance(ln, str) and ln.startswith(DEBUG_LINE)]
+            out['failure'] = [ln.split(FAILED_WITH, 1)[-1] for ln in reports]
+            out['log'] = [ln for ln in log if ln not in reports]
+        if alias in NONDET and 'result' in out:
+            out['result'] = {'type': result_type(out['result'])}
+        out['arguments-after'] = [scanon(v, lib) for v in vals]
+        out['calls'] = record
+        sides.append(out)
+    return sides[0], sides[1]
+
+
+def alias_type_lists(quick):
+    rank = {name: r for name, _, _, r in AT_VALUES}
+    every = [name for name, _, _, _ in AT_VALUES]
+    pair = [n for n in every if rank[n] <= (1 if quick else 2)]
+    triple = [n for n in every if rank[n] <= (0 if quick else 1)]
+    lists = [[]] + [[a] for a in every] + [[a, b] for a in pair for b in pair]
+    lists += [[a, b, c] for a in triple for b in triple for c in (AT_THIRD[:10] if quick else AT_THIRD)]
+    return lists
+
+
+def stream_alias_all_types(ctx):
+    st = ctx.stream('alias-all-types', 'expression mode, the alias clause on operands of EVERY value type: each of the 46 documented built-ins called through '
+                                       'evaluate_expression(builtins=True) on argument lists of 0-3 values bound as globals / locals / both - EXHAUSTIVE: no '
+                                       f'argument, each of {len(AT_VALUES)} values (null, booleans, numbers incl. -0 / 1e300 / not-a-number / infinity / an enum '
+                                       'member, strings incl. empty / padded / astral, a datetime, a date, an aware datetime, arrays incl. empty / nested / a '
+                                       'list subclass, objects incl. one with a length member, library functions, a RECORDING host function, regexes), all '
+                                       'ordered pairs of 22 (thorough: all 41) of them, all triples of 11 (thorough 22) x 11 (22) x 10 (12) third values of every type - '
+                                       'under the forms of the options argument (debug mode mostly: the failed call\'s report is observed; full; none; no log '
+                                       'function; empty). Oracle (implementation side; functions / regexes / host values cannot be sent to the Lean driver, '
+                                       'whose alias obligations are alias_table_documented / alias_resolves_to_target): the library function the DOCUMENTED '
+                                       'table names, called directly on freshly built equal arguments - same result (incl. the sign of a zero), same '
+                                       'failure value, same failure text in the debug report, same arguments afterwards, same invocations of a function '
+                                       'passed as argument; now / today / rand by result type; non-trivial = every case')
+    lists = alias_type_lists(ctx.quick)
+    failing = []
+    k = 0
+    for alias in sorted(DOC_ALIASES):
+        for names in lists:
+            k += 1
+            inp = {'alias': alias, 'target': DOC_ALIASES[alias], 'args': names, 'values': [AT_SPEC[n] for n in names],
+                   'options': AT_FORMS[k % len(AT_FORMS)], 'bind': AT_BINDS[k % len(AT_BINDS)]}
+            inp['text'] = f'{alias}({", ".join(f"v{i}" for i in range(len(names)))})'
+            want, got = alias_types_run(inp)
+            if want != got and len(failing) < 4000:
+                # a different result first, then different effects on / through the arguments, then a different failure text only
+                differs = lambda *keys: any(want.get(x) != got.get(x) for x in keys)      # pylint: disable=unnecessary-lambda-assignment,cell-var-from-loop
+                rank = 0 if differs('result', 'error', 'hostexc') else (1 if differs('arguments-after', 'calls', 'log') else 2)
+                failing.append((rank, len(names), k, inp))
+            st.case([alias, names, inp['options'], inp['bind']], nontrivial=True,
+                    tags=['alias:' + alias, f'args:{len(names)}', 'options:' + inp['options'], 'bind:' + inp['bind'], 'reference-only',
+                          'failed-call' if got.get('failure') else ('error' if 'error' in got else 'value:' + result_type_s(got.get('result')))] +
+                    sorted({'arg:' + AT_TYPE[n] for n in names}))
+    for _, _, _, inp in sorted(failing, key=lambda f: f[:3])[:ORDER_REPORT_CAP]:
+        # the same call under the plainest configuration, when it fails there too
+        plain = dict(inp, options='debug', bind='globals')
+        want, got = alias_types_run(plain)
+        if want == got:
+            plain = inp
+            want, got = alias_types_run(inp)
+        ctx.witness(ALIAS_TYPES_ORACLE, plain, want, got, note=ALIAS_TYPES_TEXT)
+    st.exhaustive = True
+
+
+def result_type_s(w):
+    if isinstance(w, dict) and 'type' in w:
+        return w['type']
+    if isinstance(w, dict) and 'negative-zero' in w:
+        return 'number'
+    return result_type(w)
+
+
+# ---------------------------------------------------------------------------------------------------------------------
 # corpus
 # ---------------------------------------------------------------------------------------------------------------------
 
@@ -3375,6 +3877,8 @@ def streams(ctx):
     stream_host_calls(ctx)
     stream_options_forms(ctx)
     stream_number_edges(ctx)
+    stream_repeated_effects(ctx)
+    stream_alias_all_types(ctx)
     stream_fresh_process(ctx)
 
 
@@ -3455,6 +3959,11 @@ def replay(witness):
         return want != got
     if oracle == FRESH_ORACLE:
         return fresh_replay(witness['input'])
+    if oracle == ALIAS_TYPES_ORACLE:
+        want, got = alias_types_run(witness['input'])
+        return want != got
+    if oracle == SITES_ORACLE:
+        return sites_failure(case_of_input(witness['input'])) is not None
     case = case_of_input(witness['input'])
     if oracle == SUBCLASS_ORACLE:
         return plain_failure(case) is not None
@@ -3491,7 +4000,7 @@ LEVEL_TEXT = ('Theorems, for expression trees of any depth and size: in the TRAC
               'declared in 14 ways that record their invocation and fail part-way with 20 exception classes, in expression shapes, random trees and '
               'multi-step histories on re-used options, with the exactly-once-in-order invocation record; every legal form of the options argument '
               'of evaluate_expression with failing built-in calls; the same cases in this process and in two fresh interpreter processes in opposite '
-              'orders, over values the host identifies by == / hash; numbers at the edges of the double format - not-a-number, the infinities, -0, subnormals, 2^53, 1e16 .. 1e308 - host-supplied and computed by overflow, under every operator with the text of the results, in all-pairs comparisons bare and embedded with the comparison laws, and in random trees) and by an independent Python reference evaluator run against the implementation on every case.')
+              'orders, over values the host identifies by == / hash; numbers at the edges of the double format - not-a-number, the infinities, -0, subnormals, 2^53, 1e16 .. 1e308 - host-supplied and computed by overflow, under every operator with the text of the results, in all-pairs comparisons bare and embedded with the comparison laws, and in random trees; structurally identical effectful sub-expressions at several sites of one expression - test and branches of if, both operands of every operator, several arguments of one call, nested, 0 .. 1000 sites, also as one shared object of the expression model - with the site-labelled twin; every built-in of the expression library on argument lists of 0-3 values of every type against the documented library function called directly: result, failure value, failure text, arguments afterwards, invocations of function arguments) and by an independent Python reference evaluator run against the implementation on every case.')
 LEVEL_NOTE = ('Trusted: Lean kernel; extract.py (alias table + identity flags); the correspondence harness and its reference evaluator. '
               'binop_numeric_partial: / % ** results are exact rationals in the model, IEEE doubles in the code - cases with an inexact step, '
               'non-finite values, stringified datetimes / -0 / exponent-form numbers, regexes are checked against the reference evaluator only. '
